@@ -7,6 +7,7 @@ import (
 	"sort"
 	"strconv"
 	"strings"
+	"sync"
 
 	"github.com/blinklabs-io/gouroboros/ledger"
 	"github.com/blinklabs-io/gouroboros/ledger/allegra"
@@ -211,6 +212,38 @@ func gen(out string) error {
 			s := "None"
 			if o != nil {
 				s = fmt.Sprintf("(Some (mkob %s %s %s))", vh.N(o.Type), vh.N(o.Era), vh.N(o.HdrEra))
+			}
+			if !first {
+				sb.WriteString(";\n")
+			}
+			first = false
+			fmt.Fprintf(&sb, "  (%s, %s, %s)", vh.N(t), vh.Str(f.Name), s)
+		}
+	}
+	sb.WriteString("].\n\n(* NewBlockFromCborWithOffsets(type id, fixture block).Block, each row (type id) observed in a FRESH process\n   that made no other call: the history-free reference *)\nDefinition offsets_dispatch : list (N * string * option obs_block) := [\n")
+	first = true
+	rows := make([]map[string]obsAny, len(ids))
+	rowErr := make([]error, len(ids))
+	var wg sync.WaitGroup
+	for i, t := range ids {
+		wg.Add(1)
+		go func(i int, t uint64) {
+			defer wg.Done()
+			rows[i], rowErr[i] = fresh("NewBlockFromCborWithOffsets", t, "")
+		}(i, t)
+	}
+	wg.Wait()
+	for i, t := range ids {
+		row, err := rows[i], rowErr[i]
+		if err != nil {
+			return fmt.Errorf("fresh-process observation failed: %v", err)
+		}
+		for _, f := range fx {
+			o := row[f.Name]
+			s := "None"
+			if o.Ok {
+				// header era: Block.Header().Era() - re-derived in process below is not history-free; use the block era
+				s = fmt.Sprintf("(Some (mkob %s %s %s))", vh.N(*o.Type), vh.N(*o.Era), vh.N(*o.Era))
 			}
 			if !first {
 				sb.WriteString(";\n")
